@@ -17,6 +17,17 @@ and phase of the hold-up.  (a) cannot hold to the letter while the loop is block
 total length of the hold-ups that overlap the window (each hold-up delays a check by at most its own length).
 Model side: Model/MonitorLate.lean (`hbl.run`), theorems in Props/C09Late.lean (every check window is at least one interval long
 because the next sleep starts when the late check ran).
+
+Application latency and inbound back-pressure (`recv:msg@d`, `recv:burst:n@d`, `loginlat` — see monitor_common): "whatever else it
+is doing" also includes an application whose message callback *awaits* (the loop keeps running, the dispatcher task is inside the
+callback) and an application that consumes more slowly than the peer sends (a backlog of parsed messages).  Neither is an excuse:
+(a) silence closes the session in bounded time also when the trip instant falls while a callback is in flight, for every latency
+and phase; (b) a peer that keeps writing a byte in every window is never dropped, however long the backlog — "the peer delivers a
+byte" is the instant the peer writes (the bytes reach the socket: the stamp of the `recv:*` event), as for hold-ups.  All inbound
+bytes go through `FakeTransport.feed`, which honours `pause_reading()`: a session that stops reading under back-pressure does
+not see the bytes, the oracle still counts them.  Both oracles are unchanged.  Model side: the remote monitor consults neither
+the queue nor the dispatcher (Props/C09Flow.lean explains why there is nothing to add); the callbacks of a transport with write
+flow control are events of `hbf.run` (Model/MonitorFlow.lean), `C09Flow_*`.
 """
 import itertools
 import json
@@ -25,7 +36,7 @@ import monitor_common as mc
 from monitor_common import peer_interval, describe
 
 DRIVER = 'drv_C08'
-LEAN_TARGETS = ['NasdaqModel.Props.C09', 'NasdaqModel.Props.C09Late', 'drv_C08']
+LEAN_TARGETS = ['NasdaqModel.Props.C09', 'NasdaqModel.Props.C09Late', 'NasdaqModel.Props.C09Flow', 'drv_C08']
 KNOWN_LOCAL = [k for k in mc.KNOWN_LOCAL if k['property'] == 'C09']
 
 
@@ -198,6 +209,54 @@ def hold_cases(role, P, far):
     return out
 
 
+def latency_cases(role, P, far, thorough):
+    """one message whose application callback awaits for L units, arriving at phase t, L from half a unit to beyond the bound of two
+    peer intervals — so that the remote monitor's trip instant falls before, at and after the end of the callback — followed by
+    silence (must be closed in time), by a second slow message queued behind it, or by a peer that stays live (must not be dropped)"""
+    out = []
+    phases = mc.odd_points(0, 2 * P) if thorough else [1, P - 1, P + 1]
+    lats = [x + 0.5 for x in range(0, 3 * P, 1 if thorough else 2)]
+    k = 0
+    for t in phases:
+        for L in lats:
+            for after in ('silence', 'second', 'live'):
+                if after == 'second' and L < P:
+                    continue
+                k += 1
+                H = (t + max(4 * P, int(L) + 2 * P) + 3) | 1
+                ev = [[t, f'recv:msg@{L}']]
+                if after == 'second':
+                    ev.append([t + 2, f'recv:msg@{L / 2 + 0.25 if int(L) % 2 else L}'])
+                elif after == 'live':
+                    ev += mc.feed(P - 2, H, 'recv:hb', start=t + P - 2)
+                ci, si = (P, P) if role == 'soupServer' else (far, P)
+                c = {'role': role, 'ci': ci, 'si': si, 'events': mc.merge(ev), 'horizon': H}
+                if role == 'soupServer' and k % 3:
+                    c['loginlat'] = [0, 3.5, 2 * P + 4.5][k % 3]      # `on_login` itself awaits before it accepts
+                out.append(c)
+    return out
+
+
+def burst_case(rng, role, P, far, n, L):
+    """the peer sends n small messages in one segment, then goes on heart-beating every P-2 units; the application's callback awaits
+    L units per message, so a backlog of parsed messages builds up (the reader parses one message per 0.08 units).  Never to be
+    dropped.  The horizon covers the growth of the backlog to several hundred messages and some intervals beyond."""
+    H = min(int(n * 0.08) + 6 * P, 40 * P) | 1
+    ev = mc.merge([[1, f'recv:burst:{n}@{L}']], mc.feed(P - 2, H, rng.choice(['recv:hb', 'recv:hb', 'recv:frag']), start=3))
+    ci, si = (P, rng.choice([P, 6, 12])) if role == 'soupServer' else (far, P)
+    return {'role': role, 'ci': ci, 'si': si, 'events': ev, 'horizon': H}
+
+
+def add_latency(rng, case, P):
+    """slow application callbacks on some of the messages of a random schedule"""
+    ev = []
+    for t, e in case['events']:
+        if e == 'recv:msg' and rng.random() < 0.7:
+            e = f'recv:msg@{rng.choice([0, 1, 3, P - 1, P, P + 1, 2 * P - 1, 2 * P + 1, 3 * P, rng.randrange(0, 3 * P)]) + 0.5}'
+        ev.append([t, e])
+    return dict(case, events=ev)
+
+
 def add_blocks(rng, case, P):
     """one to three hold-ups at random odd instants, odd lengths from 1 to a few intervals"""
     H = case['horizon']
@@ -255,8 +314,9 @@ def random_monitor(rng):
 
 
 # ------------------------------------------------------------------ one case
-def check_case(ctx, case, model_line, tag):
-    obs = mc.impl_run(case)
+def check_case(ctx, case, model_line, tag, obs=None):
+    if obs is None:
+        obs = mc.impl_run(case)
     ctx.case(describe(case), nontrivial=bool(case['events']) or tag == 'exhaustive', sample_every=211)
     ctx.count(f"{tag}:{case['role']}")
     for _t, ev in case['events']:
@@ -267,6 +327,11 @@ def check_case(ctx, case, model_line, tag):
     else:
         ctx.count('closed:' + (obs['closed'][1] if obs['closed'] else 'no'))
         ctx.count('intervals:' + ('equal' if case['ci'] == case['si'] else 'unequal'))
+        c = mc.life(obs, case)
+        for t, ev in case['events']:
+            if ev.startswith('recv:msg@') and t < c < t + float(ev[9:]) + 0.1:
+                ctx.count('callback-in-flight-at-close')
+                break
     fails = oracle(case, obs)
     if fails and len(ctx.violations) >= 3:        # enough minimised examples: record the rest as they are
         mc.report(ctx, f"{case['role']} (client interval {case['ci']}, server interval {case['si']}): {fails[0]}", classify(case, obs, fails))
@@ -277,7 +342,14 @@ def check_case(ctx, case, model_line, tag):
             o = mc.impl_run(c)
             f = oracle(c, o)
             return bool(f) and classify(c, o, f)['kind'] == kind
-        small = mc.shrink(case, still)
+        start = case
+        if obs.get('closed') and isinstance(obs['closed'][0], int):
+            # first move: nothing after the close matters to either clause
+            c = obs['closed'][0]
+            cand = dict(case, events=[e for e in case['events'] if e[0] <= c], horizon=max(c + 1, max(mc.blocks_of(case), default=(0, 0))[1] + 1))
+            if still(cand):
+                start = cand
+        small = shrink_bursts(mc.shrink(start, still), still)
         o2 = mc.impl_run(small)
         f2 = oracle(small, o2) or fails
         rep = classify(small, o2, f2)
@@ -297,6 +369,26 @@ def check_case(ctx, case, model_line, tag):
                 ctx.disagree(f"hbl.run {describe(case)[:150]}: implementation writes {json.dumps(wi)[:300]} vs model {json.dumps(wm)[:300]}",
                              dict(case, kind='correspondence'))
     return obs
+
+
+def shrink_bursts(case, still):
+    """halve the bursts of a failing case while it keeps failing (the smallest backlog that shows the failure)"""
+    cur = case
+    for _ in range(8):
+        ev, changed = [], False
+        for t, e in cur['events']:
+            if e.startswith('recv:burst:'):
+                n, L = e[11:].split('@')
+                if int(n) > 8:
+                    e, changed = f'recv:burst:{int(n) * 3 // 4}@{L}', True
+            ev.append([t, e])
+        if not changed:
+            break
+        cand = dict(cur, events=ev)
+        if not still(cand):
+            break
+        cur = cand
+    return cur
 
 
 def check_monitor(ctx, m, model_line):
@@ -323,15 +415,23 @@ def run(ctx):
                        'application close), unequal intervals; hold-ups of the event loop (a handler that blocks for d units, bytes arriving meanwhile '
                        'handed over when it ends, before the late timers): a peer with one byte per period p in {P-2, P} at every phase x hold-up at '
                        'every phase x every odd length up to 2P+5, and 1..3 random hold-ups in 30% of the random schedules; '
+                       'application latency: a message whose callback AWAITS for L units (L = 0.5 .. 3P) at every phase, followed by silence / a '
+                       'second slow message / a live peer, soup server also with a slow on_login, and slow callbacks on 20% of the random '
+                       'schedules; inbound back-pressure: bursts of several hundred to a few thousand messages in one segment with an awaiting '
+                       'consumer while the peer goes on heart-beating, all bytes through a transport that honours pause_reading(); '
+                       'write flow control episodes (as C08) on 6% of the random schedules; '
                        'bare monitors with tolerance 0..3 (30% with hold-ups, oracle only); distinct = distinct case')
     ctx.notes.append('a hold-up is a synchronous jump of the virtual clock inside a callback; "the peer delivers a byte" is then the instant the bytes '
                      'reach the socket, handed to data_received when the hold-up ends (before the late timers, as in BaseEventLoop._run_once)')
+    ctx.notes.append('callback latency and backlog are not model inputs (the remote monitor consults neither queue nor dispatcher: Props/C09Flow.lean); '
+                     'a burst is one data_received call for the model; "the peer delivers a byte" = the peer writes it (FakeTransport.feed), whether or '
+                     'not the session is reading at that moment')
     ctx.notes.append('ties between a monitor tick and an arrival are excluded from generated schedules; heartbeats written at the '
                      'instant the remote monitor closes the session are not compared (timer-heap order of equal floats)')
     cases = []
     for c in mc.load_corpus('C09'):
         if 'role' in c:
-            cases.append(('corpus', {k: c[k] for k in ('role', 'ci', 'si', 'events', 'horizon')}))
+            cases.append(('corpus', mc.case_of(c)))
     for role in mc.ROLES:
         for c in exhaustive(role, 8, 3 if thorough else 2, 400, rng):
             cases.append(('exhaustive', c))
@@ -346,10 +446,27 @@ def run(ctx):
         if thorough:
             for c in hold_cases(role, 4, 402) + hold_cases(role, 12, 404):
                 cases.append(('hold', c))
+    for role in mc.ROLES:
+        for c in latency_cases(role, 8, 400, thorough):
+            cases.append(('latency', c))
+        if thorough:
+            for c in latency_cases(role, 4, 402, False):
+                cases.append(('latency', c))
+    # bursts: one per session kind in the quick tier (a few thousand messages each: the expensive family)
+    sizes = [64, 300, 520, 800, 1300, 2600, 5000] if thorough else [800, 1300, 2000]
+    for i in range(36 if thorough else 3):
+        role = mc.ROLES[i % 3]
+        cases.append(('burst', burst_case(rng, role, rng.choice([6, 8, 8, 12]), 400, rng.choice(sizes), rng.choice([0.3, 0.5, 0.5, 1.5]))))
+    import c08
     for _ in range(16000 if thorough else 1300):
         c = random_case(rng, thorough)
-        if rng.random() < 0.3:
+        r = rng.random()
+        if r < 0.3:
             cases.append(('random-hold', add_blocks(rng, c, mc.peer_interval(c))))
+        elif r < 0.5:
+            cases.append(('random-latency', add_latency(rng, c, mc.peer_interval(c))))
+        elif r < 0.56:
+            cases.append(('random-flow', c08.add_flow(rng, c)))
         else:
             cases.append(('random', c))
     mons = [random_monitor(rng) for _ in range(6000 if thorough else 600)]
@@ -357,10 +474,12 @@ def run(ctx):
         if tag != 'corpus':
             mc.vary_sends(rng, c)
     mreqs = [mc.monitor_request(m) for m in mons]
-    lines = [mc.model_request(c) for _, c in cases] + [r for r in mreqs if r is not None]
+    # the implementation runs first: the flow-control callbacks its transport made are part of the history the model is asked about
+    observed = mc.impl_run_many([c for _, c in cases])
+    lines = [mc.model_request(c, o.get('flow')) for (_, c), o in zip(cases, observed)] + [r for r in mreqs if r is not None]
     ans = ctx.driver.ask(lines) if ctx.driver.available else [None] * len(lines)
-    for (tag, c), a in zip(cases, ans):
-        check_case(ctx, c, a, tag)
+    for (tag, c), o, a in zip(cases, observed, ans):
+        check_case(ctx, c, a, tag, obs=o)
     mans = iter(ans[len(cases):])
     for m, r in zip(mons, mreqs):
         check_monitor(ctx, m, next(mans) if r is not None else None)
@@ -371,11 +490,14 @@ def replay(ctx, path):
     rep = r.get('replay') or (r.get('no_longer_checks') or [{}])[-1].get('case') or r
     ctx.cov['rule'] = 'replay of ' + path
     if 'role' in rep:
-        case = {k: rep[k] for k in ('role', 'ci', 'si', 'events', 'horizon')}
-        line = ctx.driver.ask([mc.model_request(case)])[0] if ctx.driver.available else None
-        obs = check_case(ctx, case, line, 'replay')
+        case = mc.case_of(rep)
+        obs = mc.impl_run(case)
+        line = ctx.driver.ask([mc.model_request(case, obs.get('flow'))])[0] if ctx.driver.available else None
+        check_case(ctx, case, line, 'replay', obs=obs)
         print('case          :', describe(case))
         print('implementation:', json.dumps(mc.canon(obs)))
+        if obs.get('read_paused'):
+            print('transport     :', 'the session paused / resumed reading at', json.dumps(obs['read_paused']))
         print('model         :', json.dumps(mc.canon(mc.parse_model(line))) if line else None)
         print('oracle        :', oracle(case, obs) or 'holds')
     else:
